@@ -60,6 +60,11 @@ fn verif_grid() {
         for (bi, base) in sequences(&w.pool, 2).into_iter().enumerate() {
             for (si, st) in w.statements.iter().enumerate() {
                 let reference = q(&w.def, st, &base);
+                if reference.lines().is_none() {
+                    let (st2, r2, b2) = (st.clone(), reference.clone(), base.clone());
+                    g.case(&format!("{}-b{}-s{}-reference", w.name, bi, si), move || Err(format!("{} over {:?} has no value ({:?}): the grid is not exercising it", st2, b2, r2)));
+                    continue;
+                }
                 for at in 0..=base.len() {
                     let ni = (bi + si + at) % w.noise.len();
                     let n = w.noise[ni];
